@@ -40,7 +40,7 @@ KINDS = ["fast_plain", "fast_nodew", "fast_edgew", "fast_zero", "gillespie"]
 def plan(tier):
     if tier == "quick":
         return [("gil_walk", 500), ("law", N_LAW_CFG[tier] * LAW_BATCHES)]
-    return [("gil_walk", 25000), ("law", N_LAW_CFG[tier] * LAW_BATCHES)]
+    return [("gil_walk", 6000), ("law", N_LAW_CFG[tier] * LAW_BATCHES)]
 
 
 def law_configs(seed, tier):
